@@ -621,3 +621,149 @@ class SwitchNodeStop(SwitchKernel):
 
 
 KERNELS = [SelectBranch, SwitchTeardown, ActivateBranch, SwitchEvaluate, SwitchNodeStop]
+
+
+# ------------------------------------------------------------------ reset_switch_output
+
+
+class ResetSwitchOutput(Kernel):
+    tu = TU
+    name = "switch_node.cpp:reset_switch_output"
+    fn_name = "reset_switch_output"
+    filter = "reset_switch_output"
+    property_ids = ("C12",)
+    scope = {"lo": 0, "hi": 3}
+    title = "reset_switch_output: whatever its shape, the owned switch output forgets what the retired branch wrote"
+
+    def setup(self, I):
+        ctx = I.ctx
+        self.T = z3.Int("evaluation_time")
+        self.has_output, self.bound, self.schema_null = z3.Bool("has_output"), z3.Bool("output_bound"), z3.Bool("schema_null")
+        self.kind = z3.Int("output_kind")
+        g = Obj("ghost", "rg")
+        self.g = g
+        ctx.store[(g.oid, "cleared")] = z3.IntVal(0)
+        ctx.store[(g.oid, "cleared_t")] = z3.IntVal(-9)
+        ctx.store[(g.oid, "emptied")] = z3.IntVal(0)
+        ctx.store[(g.oid, "emptied_t")] = z3.IntVal(-9)
+        k = self
+        sch = Obj("TSValueTypeMetaData", "schema")
+        ctx.store[(sch.oid, "kind")] = self.kind
+        dv = Obj("TSDataMutationView", "data_view")
+
+        def clear(I_, a, n):
+            I_.ctx.write(Loc((g.oid, "cleared")), I_.ctx.store[(g.oid, "cleared")] + 1)
+            I_.ctx.write(Loc((g.oid, "cleared_t")), I_.ctx.rv(a[0]))
+            return I_.ctx.fresh("changed", "bool")
+        dv.m_clear_collection = clear
+        mut = Obj("TSMutation", "mutation")
+
+        def move(I_, a, n):
+            I_.ctx.write(Loc((g.oid, "emptied")), I_.ctx.store[(g.oid, "emptied")] + 1)
+            return I_.ctx.fresh("moved", "bool")
+        mut.m_move_value_from = move
+        out = Obj("TSOutputView", "output")
+        out.m_bound = lambda I_, a, n: k.bound
+        out.m_schema = lambda I_, a, n: Ptr(sch, k.schema_null)
+        out.m_data_view = lambda I_, a, n: dv
+
+        def begin(I_, a, n):
+            I_.ctx.write(Loc((g.oid, "emptied_t")), I_.ctx.rv(a[0]))
+            return mut
+        out.m_begin_mutation = begin
+        view = Obj("NodeView", "view")
+        view.m_has_output = lambda I_, a, n: k.has_output
+        view.m_output = lambda I_, a, n: out
+        return None, {"view": view, "evaluation_time": self.T}
+
+    def enum_const(self, I, ref):
+        tbl = {"REF": 9, "TSD": 4, "TSS": 3, "TSB": 6, "TSL": 5, "TS": 1}
+        if ref.get("name") in tbl:
+            return z3.IntVal(tbl[ref["name"]])
+        raise Gap("enum constant %s" % ref.get("name"))
+
+    def ctor_handler(self, qt, node):
+        if qt.endswith("Value") or qt.endswith("TimeSeriesReference"):
+            return lambda I, args, n: (I.ctx.rv(args[0]) if args else Obj("value", "empty_reference"))
+        return Kernel.ctor_handler(self, qt, node)
+
+    def function_handler(self, name, node, callee_node):
+        if name == "move":
+            return lambda I, a, n: I.ctx.rv(a[0])
+        return Kernel.function_handler(self, name, node, callee_node)
+
+    def post(self, I, ret):
+        ctx = I.ctx
+        g = lambda nm: ctx.store[(self.g.oid, nm)]
+        live = z3.And(self.has_output, self.bound)
+        is_ref = z3.And(z3.Not(self.schema_null), self.kind == 9)
+        ctx.oblige("ensures.a-reference-output-is-emptied,every-other-shape-is-cleared,at-the-cycle-time[C12 the previous branch no "
+                   "longer influences the output]", z3.Implies(live, z3.If(
+                       is_ref, z3.And(g("emptied") == 1, g("emptied_t") == self.T, g("cleared") == 0),
+                       z3.And(g("cleared") == 1, g("cleared_t") == self.T, g("emptied") == 0))), kind="post-normal")
+        ctx.oblige("ensures.no-output=>nothing-touched", z3.Implies(z3.Not(live), z3.And(g("cleared") == 0, g("emptied") == 0)),
+                   kind="post-normal")
+
+
+KERNELS += [ResetSwitchOutput]
+
+
+# ------------------------------------------------------------------ nested_bindings.h bind_sampled_input_to_source
+
+
+class BindSampledInputToSource(Kernel):
+    tu = TU
+    name = "nested_bindings.h:bind_sampled_input_to_source"
+    fn_name = "bind_sampled_input_to_source"
+    filter = "bind_sampled_input_to_source"
+    property_ids = ("C12", "C13")
+    scope = {"lo": 0, "hi": 3}
+    title = "bind_sampled_input_to_source: a freshly bound child input always samples the source's whole current value"
+
+    def setup(self, I):
+        ctx = I.ctx
+        self.T = z3.Int("evaluation_time")
+        self.bindable, self.src_bound, self.tgt_bound = z3.Bool("target_bindable"), z3.Bool("source_bound"), z3.Bool("target_bound")
+        g = Obj("ghost", "bg")
+        self.g = g
+        for nm in ("sampled", "plain", "unbound"):
+            ctx.store[(g.oid, nm)] = z3.IntVal(0)
+        ctx.store[(g.oid, "sampled_t")] = z3.IntVal(-9)
+        k = self
+        src = Obj("TSOutputView", "source")
+        src.m_bound = lambda I_, a, n: k.src_bound
+        src.m_modified = lambda I_, a, n: I_.ctx.fresh("source_modified", "bool")
+        src.m_valid = lambda I_, a, n: I_.ctx.fresh("source_valid", "bool")
+        self.source_view = src
+        tgt = Obj("TSInputView", "target")
+        tgt.m_is_bindable = lambda I_, a, n: k.bindable
+        tgt.m_bound = lambda I_, a, n: k.tgt_bound
+
+        def cnt(nm):
+            def h(I_, a, n):
+                I_.ctx.write(Loc((g.oid, nm)), I_.ctx.store[(g.oid, nm)] + 1)
+                if nm == "sampled":
+                    I_.ctx.write(Loc((g.oid, "sampled_t")), I_.ctx.rv(a[1]))
+                return VOID
+            return h
+        tgt.m_bind_output_sampled = cnt("sampled")
+        tgt.m_bind_output = cnt("plain")
+        tgt.m_unbind_output = cnt("unbound")
+        return None, {"target": tgt, "source": src, "evaluation_time": self.T}
+
+    def post(self, I, ret):
+        ctx = I.ctx
+        g = lambda nm: ctx.store[(self.g.oid, nm)]
+        ctx.oblige("ensures.bound-source=>exactly-one-sampled-bind-at-the-cycle-time,never-a-plain-bind[C12 the selected branch starts "
+                   "from the whole current value of its inputs; C13 a freshly bound valid target reads as modified with its current "
+                   "value]", z3.Implies(self.src_bound, z3.And(g("sampled") == 1, g("sampled_t") == self.T, g("plain") == 0,
+                                                                g("unbound") == 0)), kind="post-normal")
+        ctx.oblige("ensures.unbound-source=>the-target-ends-unbound", z3.Implies(z3.Not(self.src_bound), z3.And(
+            g("sampled") == 0, g("plain") == 0, g("unbound") == z3.If(self.tgt_bound, 1, 0))), kind="post-normal")
+
+    def post_exc(self, I, exc):
+        I.ctx.oblige("raises.logic_error-iff-the-target-is-not-bindable", z3.And(z3.BoolVal(exc.cls == "std::logic_error"),
+                                                                                 z3.Not(self.bindable)), kind="post-exceptional")
+
+
+KERNELS += [BindSampledInputToSource]
